@@ -221,6 +221,50 @@ def check(run):
         else:
             stats[r.get("error_kind", "?")] = stats.get(r.get("error_kind", "?"), 0) + 1
     shutil.rmtree(root, ignore_errors=True)
+    # ---- S2b: an ordinary error inside an IMPORTED package of a project: diagnostics, never a panic further down ----
+    import re as _re
+
+    import c03 as c03mod
+    import c14 as c14mod
+
+    LIB_BAD = [(w_, s_) for w_, s_ in c03mod.ILL if not any(x in s_ for x in ("pi(", "P {", "B(", "C(", "Tick", " A "))]
+    LIB_BAD += [("unknown field of a local struct", "let _ = injected_s().zz;"), ("constructor pattern with too many fields", "let _ = match injected_e() { IA(y, z) => y, IB => 0 };"),
+                ("literal pattern of another type", "let _ = match 1 { true => 0, _ => 1 };"), ("call of an undefined function", "let _ = injected_nowhere(1);"), ("annotation that does not fit", "let ys: string = 1;")]
+    pbase = os.path.join(vlib.BUILD, "tmp", "c04proj")
+    shutil.rmtree(pbase, ignore_errors=True)
+    pj_inputs, pj_meta = [], []
+    for i in range(40 if q else 500):
+        files = dict(c14mod.gen_project(rng)[0])
+        imps = lambda tx: _re.findall(r"^import (\w+)", tx, _re.M)
+        reach, todo = set(), imps("".join(v for f_, v in files.items() if "/" not in f_))
+        while todo:
+            x = todo.pop()
+            if x not in reach:
+                reach.add(x)
+                todo += imps("".join(v for f_, v in files.items() if f_.startswith(x + "/")))
+        libs = sorted(f_ for f_ in files if "/" in f_ and f_.endswith(".gom") and f_.split("/")[0] in reach)
+        if not libs:
+            continue
+        target = rng.choice(libs)
+        why, stmt = rng.choice(LIB_BAD)
+        files[target] = files[target] + "\nstruct InjS { a: int32 }\nenum InjE { IA(int32), IB }\nfn injected_s() -> InjS { InjS { a: 1 } }\nfn injected_e() -> InjE { IB }\nfn injected_bad() -> unit {\n    %s\n    ()\n}\n" % stmt
+        d = os.path.join(pbase, "g%03d" % i)
+        for fn_, tx_ in files.items():
+            os.makedirs(os.path.dirname(os.path.join(d, fn_)), exist_ok=True)
+            with open(os.path.join(d, fn_), "w") as f_:
+                f_.write(tx_)
+        pj_inputs.append({"path": d + "/main.gom", "timeout_ms": 20000})
+        pj_meta.append((why, target, files))
+    stats["projects_with_an_error_in_an_imported_package"] = len(pj_inputs)
+    try:
+        pres = vlib.run_harness("compile", pj_inputs, shards=vlib.NCPU)
+    except vlib.Hang as h:
+        pres = []
+        wits.append({"kind": "no result within the time limit (hang) on a project with an error in an imported package", "program": h.inputs[0]["path"], "entry": "pipeline::compile"})
+    for (why, target, files), r in zip(pj_meta, pres):
+        if "panic" in r or r.get("timeout"):
+            wits.append({"kind": "%s instead of diagnostics (the error is in the imported package file %s: %s)" % ("panic: " + r["panic"][:160] if "panic" in r else "hang", target, why), "files": files, "program": files[target], "entry": "pipeline::compile"})
+    shutil.rmtree(pbase, ignore_errors=True)
     # ---- S3: the command-line front end (rendering of diagnostics, check/build/link) ----
     from concurrent.futures import ThreadPoolExecutor
     croot = os.path.join(vlib.BUILD, "tmp", "c04cli")
